@@ -8,7 +8,8 @@ CLAIMED = {
    text="Lean theorems over the progressive-alignment model (any guide tree, any valid pairwise aligner): every merge preserves "
         "residues, equalises row lengths, creates no all-gap column; rows are found under their input index; expansion of a well-shaped "
         "Hirschberg path is a valid column list. Tied to the code by unit correspondence (update_gaps, make_seq, add_gap_info_to_path_n, "
-        "mirror_path_n, make_linear_sequence), replay of every real merge through the model, and an integrity oracle on real outputs.",
+        "mirror_path_n, make_linear_sequence), replay of every real merge through the model, and an integrity oracle on real outputs. "
+        "The composed pipeline model kalignRun (the whole of kalign(): detection, canonical order, distances, guide tree incl. bisecting k-means, binary32 DP, weave, rank restoration) is tied to the public kalign() bit-for-bit (op kalign_sys) and satisfies kalignRun_integrity with `= .ok rows` as its only hypothesis.",
    note="Premise `Aligner.Valid` (DP controller yields well-shaped paths) is monitored on every merge, proved only from `pathOK` onwards. "
         "Trusted: Lean kernel, translators, harness; qsort/fprintf by specification; k-means tree is an arbitrary tree in the theorem.",
    technique="Lean 4 induction over guide trees + weave algebra; differential correspondence against the C functions",
@@ -44,7 +45,8 @@ CLAIMED["C14"] = dict(
    text="Lean `decide +kernel` theorems over the executed alphabet tables: codes are invariant under case change for the three alphabets kalign_run uses, U and T share a code "
         "in the nucleotide alphabet, every letter has a code < L; the detection letter sets are closed under case change and treat T and U alike; hence detection and code "
         "conversion are invariant under such respellings (C14_detect_respell_invariant, C14_convert_respell_invariant). Tie: unit correspondence of convert_msa_to_internal; "
-        "end-to-end gap-pattern comparison of respelled inputs, all types, both APIs.",
+        "end-to-end gap-pattern comparison of respelled inputs, all types, both APIs. "
+        "kalignRun_codes_only / kalignRunWith_case_invariant / _TU_invariant state it for the composed pipeline model (hypothesis-free for the exact detector; the binary64 detector's decision equality is a hypothesis, `_partial`), tied to kalign() by the kalign_sys correspondence.",
    note="That later stages read residues only through codes is structural in the model and observed end to end. T<->U applies to inputs kalign classifies as nucleotide.",
    technique="Lean 4 kernel-checked table facts + list-map lemma; differential correspondence; end-to-end oracle",
    ref="4 C14")
@@ -99,8 +101,9 @@ CLAIMED["C03"] = dict(
    text="Lean theorems over the canonicalisation model (rank assignment, dropping empties, sort by (length desc, name) with strcmp): the sorted list is the same for every permutation "
         "when names are pairwise distinct (sort uniqueness), hence for ANY downstream pipeline that sees only the canonical (name, residues) list the rows found by name are the same "
         "(order_independent); input order is restored by rank; `rank` use sites regenerated from the source and pinned. Tie: unit correspondence of sort_by_len_name / essential "
-        "check on adversarial keys; end-to-end column-membership comparison on shuffled inputs below and above 100 sequences, CANON/TASKS hook observation.",
-   note="qsort trusted to be a correct sort. n >= 100: the k-means tree is a function of the canonical list in the model (a parameter), observed on the code via the TASKS hook.",
+        "check on adversarial keys; end-to-end column-membership comparison on shuffled inputs below and above 100 sequences, CANON/TASKS hook observation. "
+        "kalignRun_order_independent states the property for the composed pipeline model (guide tree included), which is tied to kalign() by the kalign_sys correspondence.",
+   note="qsort trusted to be a correct sort. n >= 100: bisecting k-means is modelled (Model/Kmeans.lean, bit-exact op table) with split2_partition / bisectingKmeans_leaves / kmeans_fn_of_canon; the task list is also observed on the code via the TASKS hook.",
    technique="Lean 4 sort-uniqueness proof (mergeSort on a strict total order) + frame fact by `decide`; differential correspondence; permutation oracle",
    ref="4 C03")
 CLAIMED["C05"] = dict(
